@@ -76,7 +76,7 @@ static void producer(void* a)
 {
     auto* pa = static_cast<World::ProdArg*>(a);
     for (int j = 0; j < pa->w->k; ++j)
-        pa->w->q->push(pa->id * 100 + j);
+        pa->w->q->push(pa->id * 1000 + j);
 }
 static void consumer(void* a)
 {
@@ -154,7 +154,7 @@ static void run_case(uint64_t idx, vr::Ctx& ctx)
             bool ok = (int)w->popped.size() == c.P * c.k;
             for (int v : w->popped)
             {
-                int p = v / 100, j = v % 100;
+                int p = v / 1000, j = v % 1000;
                 if (p < 0 || p >= c.P || j != nextOf[p])
                     ok = false;
                 else
@@ -228,6 +228,11 @@ int main(int argc, char** argv)
     }
     add(1, 1, -1, 1);
     add(1, 2, -1, 1);
+    // long drains: one producer, many items, no preemption - the consumer's drain loop must take them all or leave the
+    // notification pending (sizes around powers of two)
+    for (int k : { 63, 64, 65, 127, 128, 129, 300 })
+        add(1, k, 0, 1);
+    add(2, 65, 0, 1);
     if (thorough)
     {
         add(1, 3, 3, 2);
